@@ -9,7 +9,7 @@ import random
 
 M64 = (1 << 64) - 1
 VIEW_BITS = {"r8": 8, "r16": 16, "r32": 32, "r64": 64}
-TYPE_BITS = {"u8": 8, "u16": 16, "u32": 32, "u64": 64, "ptr": 64, "v128": 128}
+TYPE_BITS = {"u8": 8, "u16": 16, "u32": 32, "u64": 64, "ptr": 64, "v128": 128, "v256": 256, "v512": 512, "k16": 16}
 
 
 def mix(args):
@@ -79,12 +79,16 @@ def render(prog):
         k = st[0]
         if k == "i":
             out.append("i %s %s" % (st[1], " ".join(str(o) for o in st[2])))
+        elif k == "ik":
+            out.append("ik %s %s %s %s" % (st[1], st[2], st[3], " ".join(str(o) for o in st[4])))
         elif k == "lab":
             out.append("lab %d" % st[1])
         elif k == "jt":
             out.append("jt %s %s %s" % (st[1], st[2], " ".join(str(n) for n in st[3])))
         elif k == "call":
             out.append("call %d %s %s" % (len(st[2]), st[1] if st[1] else "-", " ".join(str(a) for a in st[2])))
+        elif k == "raw":
+            out.append(st[1])
         elif k == "ret":
             out.append("ret %s" % st[1] if st[1] else "ret")
     out.append("end")
@@ -118,6 +122,7 @@ class Interp:
         self.flags = {"C": None, "Z": None, "S": None, "O": None}
         self.mem = bytearray((k * 37 + 11) & 0xFF for k in range(256))
         self.stacks = {n: bytearray(size) for n, size, _ in prog.get("stacks", [])}
+        self.stack_init = {n: bytearray(size) for n, size, _ in prog.get("stacks", [])}
         self.calls = []
         self.labels = {st[1]: i for i, st in enumerate(prog["body"]) if st[0] == "lab"}
         self.BUF = 0x7000000000
@@ -168,11 +173,15 @@ class Interp:
 
     def load(self, m):
         buf, off = self.addr(m)
+        if m.base.startswith("&") and not all(self.stack_init[m.base[1:]][off:off + m.size]):
+            raise Unknown("read of uninitialised user stack memory")
         return int.from_bytes(buf[off:off + m.size], "little")
 
     def store(self, m, v):
         buf, off = self.addr(m)
         buf[off:off + m.size] = (v & ((1 << (8 * m.size)) - 1)).to_bytes(m.size, "little")
+        if m.base.startswith("&"):
+            self.stack_init[m.base[1:]][off:off + m.size] = b"\x01" * m.size
 
     def val(self, o, w):
         if isinstance(o, R):
@@ -234,6 +243,19 @@ class Interp:
                 if st[1]:
                     self.wr(R(st[1]), mix(args))
                 self.noflags()
+                continue
+            if k == "ik":       # AVX-512 masked 32-bit lane operation: ik name k z|m dst a b
+                name, kr, z, ops = st[1], st[2], st[3], st[4]
+                w = self.width(ops[0])
+                m = self.rd(kr)
+                a, b = self.val(ops[1], w), self.val(ops[2], w)
+                old = 0 if z == "z" else self.val(ops[0], w)
+                r = 0
+                for i in range(w // 32):
+                    x, y = (a >> (32 * i)) & 0xFFFFFFFF, (b >> (32 * i)) & 0xFFFFFFFF
+                    v = (x + y) & 0xFFFFFFFF if name == "vpaddd" else (x - y) & 0xFFFFFFFF if name == "vpsubd" else x ^ y
+                    r |= (v if (m >> i) & 1 else (old >> (32 * i)) & 0xFFFFFFFF) << (32 * i)
+                self.put(ops[0], r)
                 continue
             if k == "jt":
                 t = self.rd(st[2])
@@ -369,6 +391,25 @@ class Interp:
                     x, y = (a >> i) & ((1 << lw) - 1), (b >> i) & ((1 << lw) - 1)
                     r |= (((x - y) if name == "psubd" else (x + y)) & ((1 << lw) - 1)) << i
             self.put(ops[0], r)
+        elif name in ("vmovdqu32", "vmovdqa32", "vmovdqu", "vmovdqa"):
+            w = self.width(ops[0]) if isinstance(ops[0], R) else self.width(ops[1])
+            self.put(ops[0], self.val(ops[1], w))
+        elif name in ("vpaddd", "vpsubd", "vpxord", "vpandd", "vpord"):
+            w = self.width(ops[0])
+            a, b = self.val(ops[1], w), self.val(ops[2], w)
+            r = 0
+            for i in range(0, w, 32):
+                x, y = (a >> i) & 0xFFFFFFFF, (b >> i) & 0xFFFFFFFF
+                v = {"vpaddd": x + y, "vpsubd": x - y, "vpxord": x ^ y, "vpandd": x & y, "vpord": x | y}[name] & 0xFFFFFFFF
+                r |= v << i
+            self.put(ops[0], r)
+        elif name == "kmovw":
+            self.put(ops[0], self.val(ops[1], 16) & 0xFFFF)
+        elif name in ("korw", "kandw", "kxorw"):
+            a, b = self.rd(ops[1]), self.rd(ops[2])
+            self.put(ops[0], (a | b) if name == "korw" else (a & b) if name == "kandw" else a ^ b)
+        elif name == "knotw":
+            self.put(ops[0], ~self.rd(ops[1]) & 0xFFFF)
         elif name == "pshufd":
             a = self.val(ops[1], 128)
             r = 0
@@ -400,6 +441,8 @@ class GenX64:
         self.nlabel = 1
         self.counters = 0
         self.stacks = []
+        self.avx = []       # (name, type) of AVX-512 vector registers (v128 / v256 / v512)
+        self.kregs = []
 
     def new(self, ty, prefix="r"):
         n = "%s%d" % (prefix, len(self.regs))
@@ -424,8 +467,38 @@ class GenX64:
             return rng.choice(c)
         return rng.choice(self.gp)
 
+    def avx_op(self):
+        rng = self.rng
+        v, ty = rng.choice(self.avx)
+        same = [x for x, t in self.avx if t == ty]
+        size = TYPE_BITS[ty] // 8
+        c = rng.random()
+        if c < 0.35:
+            self.I(rng.choice(["vpaddd", "vpsubd", "vpxord", "vpandd", "vpord"]), R(v), R(rng.choice(same)), R(rng.choice(same)))
+        elif c < 0.45:
+            self.I("vmovdqu32", R(v), Mem(size, "p", rng.randrange(0, 256 - size + 1, 4)))
+        elif c < 0.55:
+            self.I("vmovdqu32", Mem(size, "p", rng.randrange(0, 256 - size + 1, 4)), R(v))
+        elif c < 0.62:
+            self.I("vmovdqa32", R(v), R(rng.choice(same)))
+        elif self.kregs:
+            kk = rng.choice(self.kregs)
+            if c < 0.72:
+                self.I("kmovw", R(kk), R(self.pick(), "r32"))
+            elif c < 0.78:
+                g = self.pick()
+                self.I("kmovw", R(g, "r32"), R(kk))
+            elif c < 0.86:
+                self.I(rng.choice(["korw", "kandw", "kxorw"]), R(kk), R(rng.choice(self.kregs)), R(rng.choice(self.kregs)))
+            elif c < 0.9:
+                self.I("knotw", R(kk), R(rng.choice(self.kregs)))
+            else:
+                self.body.append(("ik", rng.choice(["vpaddd", "vpsubd", "vpxord"]), R(kk), rng.choice(["z", "m"]), [R(v), R(rng.choice(same)), R(rng.choice(same))]))
+
     def rand_op(self, depth):
         rng = self.rng
+        if self.avx and rng.random() < 0.3:
+            return self.avx_op()
         k = rng.random()
         types = dict(self.regs)
         d = self.pick()
@@ -654,6 +727,17 @@ class GenX64:
             v = self.new("v128", "x")
             self.I("movdqu", R(v), Mem(16, p, (i * 16) % 241))
             self.vec.append(v)
+        if "avx512" in self.features:
+            for i in range(rng.choice([2, 4, 8, 16, 24, 40])):
+                ty = rng.choice(["v128", "v256", "v512", "v512"])
+                v = self.new(ty, "y")
+                size = TYPE_BITS[ty] // 8
+                self.I("vmovdqu32", R(v), Mem(size, p, (i * 16) % (256 - size + 1)))
+                self.avx.append((v, ty))
+            for i in range(rng.choice([1, 2, 4, 7, 9])):
+                kk = self.new("k16", "k")
+                self.I("kmovw", R(kk), R(rng.choice(self.gp), "r32"))
+                self.kregs.append(kk)
         for st in self.stacks:
             for off in range(0, st[1], 8):
                 self.I("mov", Mem(8, "&" + st[0], off), R(args[1]))
@@ -674,6 +758,18 @@ class GenX64:
             self.I("xor", R(res), R(tmp))
             if i < 8:
                 self.I("movdqu", Mem(16, p, 16 * i), R(v))
+        # AVX-512 values: one accumulator per vector width, masks through a GP register
+        for ty in ("v128", "v256", "v512"):
+            regs_t = [v for v, t in self.avx if t == ty]
+            if regs_t:
+                for v in regs_t[1:]:
+                    self.I("vpxord" if rng.random() < 0.5 else "vpaddd", R(regs_t[0]), R(regs_t[0]), R(v))
+                size = TYPE_BITS[ty] // 8
+                self.I("vmovdqu32", Mem(size, p, {"v128": 0, "v256": 32, "v512": 128}[ty]), R(regs_t[0]))
+        for kk in self.kregs:
+            self.I("kmovw", R(tmp, "r32"), R(kk))
+            self.I("add", R(res), R(tmp))
+            self.I("rol", R(res), Imm(5))
         self.body.append(("ret", res))
         inputs = []
         for _ in range(ninputs):
